@@ -29,6 +29,15 @@ THEOREMS = [
     "C27_replay_partial",
     "C27_refuted_purge",
     "C27_continuation_partial",
+    "C27_write_order_any_stops",
+    "C27_replay_after_any_stops",
+    "C27_recovery_succeeds_after_any_stops",
+    "C27_keys_cfg_implies_keys",
+    "C27_recovered_world_replays_to_itself",
+    "C27_journal_table_all_lives",
+    "C27_mirror_every_call",
+    "C27_observed_order_is_journal_prefix",
+    "C27_observed_order_guard_needed",
 ]
 EXPLANATION = (
     "PARTIAL. Lean model WfModel/Journal.lean: (A) the workflow_journal table with the five SqliteJournalCrud statements, "
